@@ -289,6 +289,7 @@ func initTopicP2P(t *Topic, sreg *ClientComMessage) error {
 			t.perUser[uid] = perUserData{
 				// Adapter has already swapped the state, public, defaultAccess, lastSeen values.
 				public:    subs[i].GetPublic(),
+				trusted:   subs[i].GetTrusted(),
 				lastSeen:  subs[i].GetLastSeen(),
 				lastUA:    subs[i].GetUserAgent(),
 				topicName: types.ParseUid(subs[(i+1)%2].User).UserId(),
@@ -477,6 +478,7 @@ func initTopicP2P(t *Topic, sreg *ClientComMessage) error {
 		// Public and Trusted are already swapped.
 		userData.public = sub1.GetPublic()
 		userData.trusted = sub1.GetTrusted()
+		userData.private = sub1.Private
 		userData.topicName = userID2.UserId()
 		userData.modeWant = sub1.ModeWant
 		userData.modeGiven = sub1.ModeGiven
@@ -488,6 +490,7 @@ func initTopicP2P(t *Topic, sreg *ClientComMessage) error {
 		t.perUser[userID2] = perUserData{
 			public:    sub2.GetPublic(),
 			trusted:   sub2.GetTrusted(),
+			private:   sub2.Private,
 			topicName: userID1.UserId(),
 			modeWant:  sub2.ModeWant,
 			modeGiven: sub2.ModeGiven,
